@@ -79,7 +79,9 @@ fn maps_of(l: &PsetL) -> Vec<(String, usize, &MapL)> {
     v
 }
 /// every (map kind, position, field, key) of `src` must occur in `res`
-fn drops(src: &PsetL, res: &PsetL, fails: &mut Vec<(String, String)>, dropped: &mut Vec<String>) {
+/// `newly(pos)`: in this merge a witness_utxo can be NEWLY taken from the other operand at input `pos` (self has none, other has one) — the only
+/// situation covered by the recorded finding F3-witness-utxo-clears-non-witness-utxo; any other loss of a non_witness_utxo gets its own key
+fn drops(src: &PsetL, res: &PsetL, newly: &dyn Fn(usize) -> bool, fails: &mut Vec<(String, String)>, dropped: &mut Vec<String>) {
     let rm = maps_of(res);
     for (kind, pos, m) in maps_of(src) {
         let r = rm.iter().find(|(k, p, _)| *k == kind && *p == pos).map(|x| x.2);
@@ -87,12 +89,20 @@ fn drops(src: &PsetL, res: &PsetL, fails: &mut Vec<(String, String)>, dropped: &
             let present = r.map(|r| r.iter().any(|x| x.name == e.name && x.key == e.key)).unwrap_or(false);
             if !present {
                 let short = e.name.rsplit('.').next().unwrap();
-                let key = if kind == "input" && e.name == "non_witness_utxo" { "F3-witness-utxo-clears-non-witness-utxo".to_string() } else { format!("F3-{}-{}-dropped", kind, short) };
+                let key = if kind == "input" && e.name == "non_witness_utxo" && newly(pos) { "F3-witness-utxo-clears-non-witness-utxo".to_string() } else { format!("F3-{}-{}-dropped", kind, short) };
                 fails.push((key, format!("{} {} field {}{} of an operand is missing from the merge result", kind, pos, e.name, e.key.as_ref().map(|k| format!("@{}", hex(k))).unwrap_or_default())));
                 dropped.push(format!("{}:{}", kind, e.name));
             }
         }
     }
+}
+fn has_wu(l: &PsetL, pos: usize) -> bool { l.ins.get(pos).map(|m| get(m, "witness_utxo").is_some()).unwrap_or(false) }
+/// the two listings carry the same values in every field that is NOT uid-neutral according to C08 (they describe the same transaction,
+/// field by field) — decided without calling unique_id()
+fn same_transaction(x: &PsetL, y: &PsetL) -> bool {
+    if x.ins.len() != y.ins.len() || x.outs.len() != y.outs.len() { return false; }
+    let rel = |map: &str, m: &MapL| -> Vec<Entry> { let mut v: Vec<Entry> = m.iter().filter(|e| !crate::c08::uid_neutral(map, &e.name) && e.name != "tx_data.input_count" && e.name != "tx_data.output_count").cloned().collect(); v.sort(); v };
+    rel("G", &x.g) == rel("G", &y.g) && x.ins.iter().zip(y.ins.iter()).all(|(a, b)| rel("I", a) == rel("I", b)) && x.outs.iter().zip(y.outs.iter()).all(|(a, b)| rel("O", a) == rel("O", b))
 }
 fn differing_fields(x: &PsetL, y: &PsetL) -> Vec<String> {
     // exact comparison field by field (entry lists incl. order and multiplicity: a Vec field with a duplicate differs from one without)
@@ -185,10 +195,16 @@ fn eval_merge(al: &PsetL, bl: &PsetL) -> Out {
     if let (Ok(x), Ok(y)) = (&ua, &ub) {
         if x != y && matches!(r, Res::Ok(_)) { fails.push(("gate-open".into(), "PSETs with different unique ids were merged".into())); }
     }
+    // two PSETs that carry the same values in every transaction-identifying field (C08's list) and do not contradict each other describe
+    // the same transaction: the merge must not be refused — decided from the fields, not from unique_id()
+    if same_transaction(&al, &bl) && compatible(&al, &bl) && (ua.is_ok() || ub.is_ok()) && !matches!(r, Res::Ok(_)) {
+        fails.push(("same-transaction-refused".into(), format!("the operands agree on every transaction-identifying field and differ only by compatible additions, but merge returns {}", show_res(&r))));
+    }
     if let (Res::Ok(c), Some(m)) = (&r, &merged) {
         let mut dropped = vec![];
-        drops(&al, c, &mut fails, &mut dropped);
-        drops(&bl, c, &mut fails, &mut dropped);
+        let newly_ab = |pos: usize| !has_wu(&al, pos) && has_wu(&bl, pos);
+        drops(&al, c, &newly_ab, &mut fails, &mut dropped);
+        drops(&bl, c, &newly_ab, &mut fails, &mut dropped);
         duplicates(c, &mut fails);
         {   // Global::merge: modifiable flags are OR-ed (absent = 0), the PSET version is the maximum
             let flag = |l: &PsetL| get(&l.g, "tx_data.tx_modifiable").and_then(|e| e.val.first().copied()).unwrap_or(0);
@@ -209,7 +225,8 @@ fn eval_merge(al: &PsetL, bl: &PsetL) -> Out {
                 Res::Ok(c2) => {
                     let d: Vec<String> = differing_fields(c, c2).into_iter().filter(|f| !dropped.contains(f)).collect();
                     let mut d2 = vec![]; let mut dr2 = vec![];
-                    drops(&al, c2, &mut d2, &mut dr2); drops(&bl, c2, &mut d2, &mut dr2); duplicates(c2, &mut d2);
+                    let newly_ba = |pos: usize| !has_wu(&bl, pos) && has_wu(&al, pos);
+                    drops(&al, c2, &newly_ba, &mut d2, &mut dr2); drops(&bl, c2, &newly_ba, &mut d2, &mut dr2); duplicates(c2, &mut d2);
                     let d: Vec<String> = d.into_iter().filter(|f| !dr2.contains(f)).collect();
                     fails.extend(d2);
                     if !d.is_empty() { fails.push(("order-dependent".into(), format!("merge(a,b) and merge(b,a) of compatible descendants differ in {}", d.join(",")))); }
@@ -253,7 +270,9 @@ fn eval_family(ls: &[PsetL]) -> Out {
     for l in ls { match from_model(l) { Ok(p) => ps.push(p), Err(e) => return Out::ok(format!("harnesserr {}", e)) } }
     let ls: Vec<PsetL> = ps.iter().map(to_model).collect();
     let uids: Vec<_> = ps.iter().map(uid).collect();
-    let in_domain = uids.iter().all(|u| u.is_ok() && *u == uids[0]) && (0..ls.len()).all(|i| (0..ls.len()).all(|j| compatible(&ls[i], &ls[j])));
+    let pairwise = |f: &dyn Fn(&PsetL, &PsetL) -> bool| (0..ls.len()).all(|i| (0..ls.len()).all(|j| f(&ls[i], &ls[j])));
+    // the family is in the property's domain when its members describe the same transaction field by field (or at least have equal ids) and are compatible
+    let in_domain = pairwise(&compatible) && ((uids.iter().any(|u| u.is_ok()) && pairwise(&same_transaction)) || uids.iter().all(|u| u.is_ok() && *u == uids[0]));
     let mut results: Vec<Res> = vec![];
     for p in perms(ps.len()) { for t in shapes(&p) { results.push(match eval_tree(&t, &ps) { Ok(m) => Res::Ok(to_model(&m)), Err(r) => r }); } }
     // the reported result is the left fold ((p0 + p1) + p2) + p3
@@ -266,10 +285,12 @@ fn eval_family(ls: &[PsetL]) -> Out {
         let mut dropped = vec![];
         for r in &results {
             match r {
-                Res::Ok(c) => { for l in &ls { drops(l, c, &mut fails, &mut dropped); } duplicates(c, &mut fails); }
+                Res::Ok(c) => { let newly = |pos: usize| ls.iter().any(|l| !has_wu(l, pos)) && ls.iter().any(|l| has_wu(l, pos));
+                                for l in &ls { drops(l, c, &newly, &mut fails, &mut dropped); } duplicates(c, &mut fails); }
                 Res::Panic => fails.push(("merge-panics".into(), "a merge order of a compatible family panicked".into())),
                 Res::Err(c) => {
-                    let key = if c == "unique_id_mismatch" && (0..ls.len()).any(|i| lt_fields_differ(&ls[0], &ls[i])) { "C14-locktime-max-changes-unique-id" } else { "order-dependent-refusal" };
+                    let key = if c == "unique_id_mismatch" && (0..ls.len()).any(|i| lt_fields_differ(&ls[0], &ls[i])) { "C14-locktime-max-changes-unique-id" }
+                              else if pairwise(&same_transaction) { "same-transaction-refused" } else { "order-dependent-refusal" };
                     fails.push((key.into(), format!("some merge order of a compatible family with equal unique ids fails with {}", c)));
                 }
             }
@@ -552,6 +573,43 @@ pub fn gen(rng: &mut ChaCha20Rng, n: usize, thorough: bool) -> Vec<Case> {
         put(&mut a.g, Entry { name: "version".into(), key: None, val: va.to_le_bytes().to_vec() });
         put(&mut b.g, Entry { name: "version".into(), key: None, val: vb.to_le_bytes().to_vec() });
         out.push(mk_merge(&norm(&a), &norm(&b), vec!["version:both".into()]));
+    }
+    // (10) an input that carries BOTH utxo forms: merged with an identical copy, with a sibling that added an unrelated field, with the bare ancestor
+    for variant in ["copy", "sibling", "ancestor-into", "into-ancestor", "both-plus-other-sibling"] {
+        let base = to_model(&base_pset(rng, 2, 1));
+        let pos = rng.gen_range(0..2);
+        let mut both = base.clone();
+        put(&mut both.ins[pos], sample(rng, &pool, "I", "non_witness_utxo")); put(&mut both.ins[pos], sample(rng, &pool, "I", "witness_utxo"));
+        let mut sib = both.clone();
+        put(&mut sib.ins[pos], sample(rng, &pool, "I", "redeem_script")); put(&mut sib.ins[pos], sample(rng, &pool, "I", "partial_sigs"));
+        let (a, b) = match variant { "copy" => (both.clone(), both.clone()), "sibling" => (both.clone(), sib), "ancestor-into" => (both.clone(), base.clone()),
+                                     "into-ancestor" => (base.clone(), both.clone()), _ => (sib, both.clone()) };
+        out.push(mk_merge(&norm(&a), &norm(&b), vec![format!("utxo-both:{}", variant)]));
+    }
+    // (11) descendants of one ancestor by the additions C08 proves uid-neutral (final script sig / witness, sequence on a sequence-less input, partial and
+    //      taproot signatures, scripts, derivations, proofs): as pairs with the ancestor in both directions, and as families of three
+    {
+        let neutral: Vec<(&str, &str)> = FIELDS.iter().filter(|(m, f, _)| *m != "G" && crate::c08::uid_neutral(m, f) && *f != "non_witness_utxo" && *f != "witness_utxo").map(|(m, f, _)| (*m, *f)).collect();
+        let trios: Vec<[&str; 3]> = vec![["final_script_sig", "sequence", "partial_sigs"], ["final_script_witness", "redeem_script", "bip32_derivation"],
+                                         ["tap_key_sig", "witness_script", "tap_key_origins"], ["blind_value_proof", "in_utxo_rangeproof", "sighash_type"],
+                                         ["final_script_sig", "final_script_witness", "sequence"]];
+        for trio in &trios {
+            let anc = to_model(&base_pset(rng, 2, 2));
+            let pos = rng.gen_range(0..2);
+            let mut ms = vec![];
+            for f in trio.iter() { let mut d = anc.clone(); put(&mut d.ins[pos], sample(rng, &pool, "I", f)); ms.push(norm(&d)); }
+            out.push(Case { text: format!("C14 fam {}", ms.iter().map(show).collect::<Vec<_>>().join(" ")), tags: vec![format!("neutral-family:{}", trio.join("+"))], nontrivial: true });
+            out.push(Case { text: format!("C14 fam {} {}", show(&norm(&anc)), ms.iter().map(show).collect::<Vec<_>>().join(" ")), tags: vec![format!("neutral-family+ancestor:{}", trio.join("+"))], nontrivial: true });
+        }
+        if thorough {
+            for (m, f) in &neutral {
+                let anc = to_model(&base_pset(rng, 2, 2));
+                let pos = rng.gen_range(0..2);
+                let mut d = anc.clone(); put(map_mut(&mut d, m, pos), sample(rng, &pool, m, f));
+                let mut d2 = anc.clone(); put(map_mut(&mut d2, "I", pos), sample(rng, &pool, "I", "final_script_sig"));
+                out.push(Case { text: format!("C14 fam {} {} {}", show(&norm(&anc)), show(&norm(&d)), show(&norm(&d2))), tags: vec![format!("neutral-family3:{}.{}", m, f)], nontrivial: true });
+            }
+        }
     }
     // (5) conflicting values for the same field (a combiner may pick either; nothing may be lost or panic)
     for _ in 0..(n / 4 + 2) {
